@@ -88,14 +88,21 @@ def gen_pair(rng, idx):
     if a["shape"] == "box" and b["shape"] == "box" and rng.random() < 0.5:   # planar boxes: fast path incl. equal z
         for o in (a, b):
             o.update(pitch=0.0, roll=0.0)
-        if rng.random() < 0.5:
+        k = rng.random()
+        if k < 0.4:
             b["pos"][2] = a["pos"][2]
+        elif k < 0.75:   # stacked: footprints overlap, vertical gap around the touching height
+            b["pos"] = [a["pos"][0] + rng.uniform(-0.3, 0.3), a["pos"][1] + rng.uniform(-0.3, 0.3),
+                        a["pos"][2] + rng.choice([-1, 1]) * rng.uniform(0.3, 2.2) * (a["dims"][2] + b["dims"][2]) / 2]
     return dict(id=f"pr{idx}", a=a, b=b, s=s)
 
 
 def gen_contain(rng, idx):
     kind = rng.choice(["box", "box", "spheroid", "notched", "notched", "footprint", "footprint"])
     obj = gen_shape(rng, allow_nonconvex=(kind != "spheroid"), lo=0.4, hi=2.0)
+    if kind == "spheroid" and obj["shape"] != "box":
+        # 1280 container faces x every object vertex are checked exactly: keep the object's vertex list short
+        obj["shape"] = "box"
     base = [rng.uniform(-50, 50) for _ in range(3)]
     cn = dict(kind=kind, pos=base)
     if kind == "footprint":
@@ -131,14 +138,52 @@ def run_chunks(kind, cases, timeout=6000):
     return out
 
 
+class DummyCheck:
+    def __init__(self):
+        self.cov = dict(samples=[], traces_validated_against_impl=0, phase_s={})
+
+    def count(self, *a, **k):
+        pass
+
+    hist = sample = count
+
+    def violation(self, *a, **k):
+        return False
+
+
+class BatchDriver:
+    """Runs the extracted driver ONCE for many commands: the evaluation code is executed twice, first with
+    collecting=True (every query is recorded and answered with a placeholder), then for real from the batch."""
+
+    def __init__(self, exe):
+        self.exe, self.cmds, self.out, self.collecting = exe, [], {}, True
+
+    def __call__(self, cmds):
+        if self.collecting:
+            self.cmds += cmds
+            return ["0 -"] * len(cmds)
+        return [self.out[x] for x in cmds]
+
+    def flush(self):
+        uniq = list(dict.fromkeys(self.cmds))
+        res = common.run_driver(self.exe, uniq) if uniq else []
+        self.out = dict(zip(uniq, res))
+        self.collecting = False
+
+
 def cert_cmd(t, A, B):
     if t["kind"] == "sep":
         return "SEP " + " ".join(hx(x) for x in t["n"]) + f" {hx(t['d'])} {hx(t['m'])} {V(A)} {V(B)}"
-    return f"COM {hx(1e-9)} {W(t['la'])} {V(A)} {W(t['mu'])} {V(B)}"
+    # a point in the hull of a SUBSET of the vertices is in the hull: send only the support of the weights
+    # (LP vertex solutions have at most 4 non-zero weights), which keeps the exact arithmetic small
+    ia = [k for k, w in enumerate(t["la"]) if w > 1e-14]
+    ib = [k for k, w in enumerate(t["mu"]) if w > 1e-14]
+    return (f"COM {hx(1e-9)} {W([t['la'][k] for k in ia])} {V([A[k] for k in ia])} "
+            f"{W([t['mu'][k] for k in ib])} {V([B[k] for k in ib])}")
 
 
 def main():
-    c = Check(PID, "partial")
+    c = Check(PID, "proof")   # partial: see manifest level_note (native kernels only differentially tested)
     c.cov["rule"] = ("seeded generator: pairs over box/cylinder/cone/spheroid and non-convex shapes built from convex boxes (two disjoint bodies, "
                      "L-shaped union), random dimensions, 70% positioned up to 170 units from the origin, poses axis-aligned / planar / general "
                      "yaw-pitch-roll, centre distance 0-3x the sum of half-sizes (60% around contact), planar boxes with equal and different z; "
@@ -151,7 +196,7 @@ def main():
     exe = common.build_ocaml(PID)
     quick = c.tier == "quick"
     rng = c.rng
-    n_pr, n_cn = (260, 200) if quick else (8000, 6000)
+    n_pr, n_cn = (160, 140) if quick else (8000, 6000)
     pairs = [gen_pair(rng, i) for i in range(n_pr)]
     conts = [gen_contain(rng, i) for i in range(n_cn)]
     if c.replay:
@@ -162,174 +207,195 @@ def main():
             conts = [case] if case["id"].startswith("cn") else []
     phase = c.cov.setdefault("phase_s", {})
 
-    # ---------------------------------------------------------------- pairs
-    t0 = time.time()
-    res = run_chunks("pairs", pairs) if pairs else {}
-    phase["pairs_impl"] = round(time.time() - t0, 1)
-    skipped_close = 0
-    for case in pairs:
-        r = res.get(case["id"])
-        if r is None or "crash" in r:
-            c.violation("harness", "implementation driver crashed", dict(case=case, crash=(r or {}).get("crash"), tb=(r or {}).get("tb")), no_input=True)
-            continue
-        c.hist("pair:shapes:" + "+".join(sorted([case["a"]["shape"], case["b"]["shape"]])))
-        if "exc" in r:
-            c.violation("exception", "an overlap query raised", dict(case=case, exc=r["exc"]))
-            continue
-        truth = r["truth"]
-        if truth["overlap"] is None:
-            skipped_close += 1
-            c.hist("pair:skip-close")
-            truth_val = None
-        else:
-            # validate the certificate(s) with the extracted checker
-            cmds = [cert_cmd(t, r["pieces_a"][t["i"]], r["pieces_b"][t["j"]]) for t in truth["certs"]]
-            ok = common.run_driver(exe, cmds)
-            if not all(x == "1" for x in ok):
-                c.hist("pair:certificate-rejected")
+    # The evaluation below is executed twice: a dry pass that only collects the model-driver commands (so that the
+    # extracted driver runs once for the whole batch), then the real pass.
+    drv = BatchDriver(exe)
+    real_c = c
+    res_cache = {}
+    for c in (DummyCheck(), real_c):
+        skipped_close = 0
+        # ---------------------------------------------------------------- pairs
+        t0 = time.time()
+        if "pairs" not in res_cache:
+            res_cache["pairs"] = run_chunks("pairs", pairs) if pairs else {}
+        res = res_cache["pairs"]
+        if drv.collecting:
+            phase["pairs_impl"] = round(time.time() - t0, 1)
+        for case in pairs:
+            r = res.get(case["id"])
+            if r is None or "crash" in r:
+                c.violation("harness", "implementation driver crashed", dict(case=case, crash=(r or {}).get("crash"), tb=(r or {}).get("tb")), no_input=True)
+                continue
+            c.hist("pair:shapes:" + "+".join(sorted([case["a"]["shape"], case["b"]["shape"]])))
+            if "exc" in r:
+                c.violation("exception", "an overlap query raised", dict(case=case, exc=r["exc"]))
+                continue
+            truth = r["truth"]
+            if truth["overlap"] is None:
                 skipped_close += 1
+                c.hist("pair:skip-close")
                 truth_val = None
             else:
-                truth_val = truth["overlap"]
-                c.hist("pair:truth:" + ("overlap" if truth_val else "disjoint"))
-        c.count((case["a"], case["b"]), nontrivial=truth_val is not None)
-        if truth_val is not None:
-            c.cov["traces_validated_against_impl"] += 1
-            for key in ("obj_intersects", "obj_intersects_rev", "vol_intersects"):
-                if r[key] != truth_val:
-                    c.violation("overlap", f"{key} disagrees with certified exact geometry",
-                                dict(case=case, query=key, impl=r[key], truth=truth_val, margin=truth["certs"][0].get("margin"), oracles=r.get("oracles")))
-            md = r["min_dist"]
-            if truth_val and md > 0:
-                c.violation("min-distance", "positive minimum distance reported for overlapping objects", dict(case=case, impl=md))
-            if not truth_val and "gap" in r and r["gap"][1] - r["gap"][0] < 1e-7:
-                c.hist("pair:gap-certified")
-                if abs(md - r["gap"][1]) > 1e-6:
-                    c.violation("min-distance", "minimum distance differs from the certified gap", dict(case=case, impl=md, gap=r["gap"]))
-            elif not truth_val and md <= 0:
-                c.violation("min-distance", "non-positive minimum distance reported for disjoint objects", dict(case=case, impl=md))
-        # cascade model vs implementation, and every shortcut vs truth / last pass
-        o = r.get("oracles")
-        if o is None:
-            c.hist("pair:oracles-unavailable")
-            continue
-        bits = " ".join("1" if o[k] else "0" for k in IBITS)
-        mo = common.run_driver(exe, ["CASC " + bits, f"OBJ {int(o['both_planar_boxes'])} {int(o['z_apart'])} {int(o['polys_intersect'])} " + bits])
-        ans, pas = mo[0].split()
-        c.hist("pair:pass:" + pas)
-        c.hist("pair:path:" + ("planar-boxes" if o["both_planar_boxes"] else "volume"))
-        if (ans == "1") != r["vol_intersects"]:
-            c.violation("cascade", "MeshVolumeRegion.intersects differs from the cascade model over its own pass answers",
-                        dict(case=case, impl=r["vol_intersects"], model=ans, model_pass=pas, oracles=o))
-        if (mo[1] == "1") != r["obj_intersects"]:
-            c.violation("cascade", "Object.intersects differs from the cascade model over its own pass answers",
-                        dict(case=case, impl=r["obj_intersects"], model=mo[1], oracles=o))
-        claims = []
-        if o["centre_far"]:
-            claims.append(("pass1-centre-far", False))
-        if o["both_scaled"] and o["in_near"]:
-            claims.append(("pass2A-inradii", True))
-        if o["both_scaled"] and o["circ_far"]:
-            claims.append(("pass2A-circumradii", False))
-        if not o["bbox_overlap"]:
-            claims.append(("pass2B-bbox", False))
-        if o["surf_collide"]:
-            claims.append(("pass3-fcl-hit", True))
-        elif o["both_convex"]:
-            claims.append(("pass3-fcl-convex", False))
-        elif o["single_bodies"]:
-            claims.append(("pass4-interior-points", o["a_has_b_point"] or o["b_has_a_point"]))
-        claims.append(("pass5-boolean", o["bool_nonempty"]))
-        if o["both_planar_boxes"]:
-            claims.append(("planar-box-fast-path", (not o["z_apart"]) and o["polys_intersect"]))
-        for name, val in claims:
-            c.count(n=1)
-            c.hist("shortcut:" + name)
-            if truth_val is not None and val != truth_val:
-                c.violation("shortcut", f"shortcut {name} contradicts certified exact geometry",
-                            dict(case=case, shortcut=name, says=val, truth=truth_val, oracles=o))
-            if truth_val is None and name != "pass5-boolean" and val != o["bool_nonempty"] and abs(truth.get("margin", 0)) > 1e-9:
-                c.hist("shortcut:differs-from-last-pass-in-skipped-close-case")
-        if len(c.cov["samples"]) < 3 and truth_val is not None:
-            c.sample(dict(a=case["a"], b=case["b"], truth=truth_val, impl=r["obj_intersects"], model_pass=pas))
-    phase["pairs_total"] = round(time.time() - t0, 1)
-
-    # ---------------------------------------------------------------- containment
-    t0 = time.time()
-    res = run_chunks("contain", conts) if conts else {}
-    for case in conts:
-        r = res.get(case["id"])
-        if r is None or "crash" in r:
-            c.violation("harness", "implementation driver crashed", dict(case=case, crash=(r or {}).get("crash"), tb=(r or {}).get("tb")), no_input=True)
-            continue
-        c.hist("contain:container:" + case["container"]["kind"])
-        c.hist("contain:obj:" + case["obj"]["shape"])
-        if "exc" in r:
-            c.violation("exception", "containsObject raised", dict(case=case, exc=r["exc"]))
-            continue
-        t = r["truth"]
-        allv = [p for piece in r["pieces"] for p in piece]
-        truth_val = t.get("inside")
-        if truth_val is not None:
-            cmds = []
-            if t["why"] == "vertex-outside":
-                cmds.append(f"OUT {hx(t['m'])} {Hs(r['H'])} {V(allv)}")
-            else:
-                cmds.append(f"INS {hx(t['m'])} {Hs(r['H'])} {V(allv)}")
-                for ct in t.get("certs", []):
-                    cmds.append(cert_cmd(dict(ct, j=0), r["pieces"][ct["i"]], r["notch"]))
-            ok = common.run_driver(exe, cmds)
-            if not all(x == "1" for x in ok):
-                c.hist("contain:certificate-rejected")
-                truth_val = None
-        if truth_val is None:
-            skipped_close += 1
-            c.hist("contain:skip-close")
-        else:
-            c.hist("contain:truth:" + t["why"])
-            c.cov["traces_validated_against_impl"] += 1
-            if r["contains"] != truth_val:
-                c.violation("containment", "containsObject disagrees with certified exact geometry",
-                            dict(case=case, impl=r["contains"], truth=truth_val, why=t["why"], min_slack=t["min_slack"], oracles=r.get("oracles") or r.get("foot")))
-        c.count((case["obj"], case["container"]), nontrivial=truth_val is not None)
-        o = r.get("oracles")
-        if o is not None and (o["c_convex"] or o["c_have_obj_point"]):
-            mo = common.run_driver(exe, ["CONT " + " ".join("1" if o[k] else "0" for k in CBITS)])[0].split()
-            c.hist("contain:pass:" + mo[1])
-            # passes 4/5 may use a random sample when the container's centre is outside it: only replay the deterministic ones
-            if o["c_have_reg_point"] or mo[1] not in ("4", "5"):
-                if (mo[0] == "1") != r["contains"]:
-                    c.violation("cascade", "containsObject differs from the cascade model over its own pass answers",
-                                dict(case=case, impl=r["contains"], model=mo, oracles=o))
+                # validate the certificate(s) with the extracted checker
+                cmds = [cert_cmd(t, r["pieces_a"][t["i"]], r["pieces_b"][t["j"]]) for t in truth["certs"]]
+                ok = drv(cmds)
+                if not all(x == "1" for x in ok):
+                    c.hist("pair:certificate-rejected")
+                    skipped_close += 1
+                    truth_val = None
+                else:
+                    truth_val = truth["overlap"]
+                    c.hist("pair:truth:" + ("overlap" if truth_val else "disjoint"))
+            c.count((case["a"], case["b"]), nontrivial=truth_val is not None)
+            if truth_val is not None:
+                c.cov["traces_validated_against_impl"] += 1
+                for key in ("obj_intersects", "obj_intersects_rev", "vol_intersects"):
+                    if r[key] != truth_val:
+                        c.violation("overlap", f"{key} disagrees with certified exact geometry",
+                                    dict(case=case, query=key, impl=r[key], truth=truth_val, margin=truth["certs"][0].get("margin"), oracles=r.get("oracles")))
+                md = r["min_dist"]
+                if truth_val and md > 0:
+                    c.violation("min-distance", "positive minimum distance reported for overlapping objects", dict(case=case, impl=md))
+                if not truth_val and "gap" in r and r["gap"][1] - r["gap"][0] < 1e-7:
+                    c.hist("pair:gap-certified")
+                    if abs(md - r["gap"][1]) > 1e-6:
+                        c.violation("min-distance", "minimum distance differs from the certified gap", dict(case=case, impl=md, gap=r["gap"]))
+                elif not truth_val and md <= 0:
+                    c.violation("min-distance", "non-positive minimum distance reported for disjoint objects", dict(case=case, impl=md))
+            # cascade model vs implementation, and every shortcut vs truth / last pass
+            o = r.get("oracles")
+            if o is None:
+                c.hist("pair:oracles-unavailable")
+                continue
+            bits = " ".join("1" if o[k] else "0" for k in IBITS)
+            mo = drv(["CASC " + bits, f"OBJ {int(o['both_planar_boxes'])} {int(o['z_apart'])} {int(o['polys_intersect'])} " + bits])
+            ans, pas = mo[0].split()
+            c.hist("pair:pass:" + pas)
+            c.hist("pair:path:" + ("planar-boxes" if o["both_planar_boxes"] else "volume"))
+            if (ans == "1") != r["vol_intersects"]:
+                c.violation("cascade", "MeshVolumeRegion.intersects differs from the cascade model over its own pass answers",
+                            dict(case=case, impl=r["vol_intersects"], model=ans, model_pass=pas, oracles=o))
+            if (mo[1] == "1") != r["obj_intersects"]:
+                c.violation("cascade", "Object.intersects differs from the cascade model over its own pass answers",
+                            dict(case=case, impl=r["obj_intersects"], model=mo[1], oracles=o))
             claims = []
-            if not o["c_bbox_overlap"]:
-                claims.append(("c-pass1-bbox", False))
-            if o["c_convex"] and o["c_bb_corners_in"]:
-                claims.append(("c-pass2-bb-corners", True))
-            if o["c_convex"]:
-                claims.append(("c-pass2-vertices", o["c_vertices_in"]))
-            if o["c_have_obj_point"] and not o["c_obj_point_in"]:
-                claims.append(("c-pass3-point-outside", False))
-            if o["c_have_obj_point"] and o["c_obj_point_in"] and o["c_ball_fits"]:
-                claims.append(("c-pass3-ball-fits", True))
-            if o["c_have_reg_point"] and o["c_too_far"]:
-                claims.append(("c-pass4-too-far", False))
-            claims.append(("c-pass5-difference", o["c_diff_empty"]))
+            if o["centre_far"]:
+                claims.append(("pass1-centre-far", False))
+            if o["both_scaled"] and o["in_near"]:
+                claims.append(("pass2A-inradii", True))
+            if o["both_scaled"] and o["circ_far"]:
+                claims.append(("pass2A-circumradii", False))
+            if not o["bbox_overlap"]:
+                claims.append(("pass2B-bbox", False))
+            if o["surf_collide"]:
+                claims.append(("pass3-fcl-hit", True))
+            elif o["both_convex"]:
+                claims.append(("pass3-fcl-convex", False))
+            elif o["single_bodies"]:
+                claims.append(("pass4-interior-points", o["a_has_b_point"] or o["b_has_a_point"]))
+            claims.append(("pass5-boolean", o["bool_nonempty"]))
+            if o["both_planar_boxes"]:
+                claims.append(("planar-box-fast-path", (not o["z_apart"]) and o["polys_intersect"]))
             for name, val in claims:
                 c.count(n=1)
                 c.hist("shortcut:" + name)
                 if truth_val is not None and val != truth_val:
                     c.violation("shortcut", f"shortcut {name} contradicts certified exact geometry",
                                 dict(case=case, shortcut=name, says=val, truth=truth_val, oracles=o))
-        f = r.get("foot")
-        if f is not None:
-            mo = common.run_driver(exe, [f"FOOT {int(f['f_convex'])} {int(f['f_poly_in'])} {int(f['f_hull_in'])}"])[0]
-            c.hist("contain:footprint:" + ("convex" if f["f_convex"] else ("hull" if f["f_hull_in"] else "exact")))
-            if (mo == "1") != r["contains"]:
-                c.violation("cascade", "footprint containsObject differs from the cascade model", dict(case=case, impl=r["contains"], model=mo, oracles=f))
-            if truth_val is not None and f["f_hull_in"] and not truth_val:
-                c.violation("shortcut", "shortcut footprint-hull contradicts certified exact geometry", dict(case=case, oracles=f, truth=truth_val))
-    phase["contain"] = round(time.time() - t0, 1)
+                if truth_val is None and name != "pass5-boolean" and val != o["bool_nonempty"] and abs(truth.get("margin", 0)) > 1e-9:
+                    c.hist("shortcut:differs-from-last-pass-in-skipped-close-case")
+            if len(c.cov["samples"]) < 3 and truth_val is not None:
+                c.sample(dict(a=case["a"], b=case["b"], truth=truth_val, impl=r["obj_intersects"], model_pass=pas))
+        if drv.collecting:
+            phase["pairs_dry"] = round(time.time() - t0, 1)
+
+        # ---------------------------------------------------------------- containment
+        t0 = time.time()
+        if "contain" not in res_cache:
+            res_cache["contain"] = run_chunks("contain", conts) if conts else {}
+        res = res_cache["contain"]
+        for case in conts:
+            r = res.get(case["id"])
+            if r is None or "crash" in r:
+                c.violation("harness", "implementation driver crashed", dict(case=case, crash=(r or {}).get("crash"), tb=(r or {}).get("tb")), no_input=True)
+                continue
+            c.hist("contain:container:" + case["container"]["kind"])
+            c.hist("contain:obj:" + case["obj"]["shape"])
+            if "exc" in r:
+                c.violation("exception", "containsObject raised", dict(case=case, exc=r["exc"]))
+                continue
+            t = r["truth"]
+            allv = [p for piece in r["pieces"] for p in piece]
+            truth_val = t.get("inside")
+            if truth_val is not None:
+                cmds = []
+                if t["why"] == "vertex-outside":
+                    # one violated half-space and one vertex are a complete certificate of non-containment
+                    fi, vi = t["worst"]
+                    cmds.append(f"OUT {hx(t['m'])} {Hs(dict(n=[r['H']['n'][fi]], d=[r['H']['d'][fi]]))} {V([allv[vi]])}")
+                else:
+                    cmds.append(f"INS {hx(t['m'])} {Hs(r['H'])} {V(allv)}")
+                    for ct in t.get("certs", []):
+                        cmds.append(cert_cmd(dict(ct, j=0), r["pieces"][ct["i"]], r["notch"]))
+                ok = drv(cmds)
+                if not all(x == "1" for x in ok):
+                    c.hist("contain:certificate-rejected")
+                    truth_val = None
+            if truth_val is None:
+                skipped_close += 1
+                c.hist("contain:skip-close")
+            else:
+                c.hist("contain:truth:" + t["why"])
+                c.cov["traces_validated_against_impl"] += 1
+                if r["contains"] != truth_val:
+                    c.violation("containment", "containsObject disagrees with certified exact geometry",
+                                dict(case=case, impl=r["contains"], truth=truth_val, why=t["why"], min_slack=t["min_slack"], oracles=r.get("oracles") or r.get("foot")))
+            c.count((case["obj"], case["container"]), nontrivial=truth_val is not None)
+            o = r.get("oracles")
+            if o is not None and (o["c_convex"] or o["c_have_obj_point"]):
+                mo = drv(["CONT " + " ".join("1" if o[k] else "0" for k in CBITS)])[0].split()
+                c.hist("contain:pass:" + mo[1])
+                # passes 4/5 may use a random sample when the container's centre is outside it: only replay the deterministic ones
+                if o["c_have_reg_point"] or mo[1] not in ("4", "5"):
+                    if (mo[0] == "1") != r["contains"]:
+                        c.violation("cascade", "containsObject differs from the cascade model over its own pass answers",
+                                    dict(case=case, impl=r["contains"], model=mo, oracles=o))
+                claims = []
+                if not o["c_bbox_overlap"]:
+                    claims.append(("c-pass1-bbox", False))
+                if o["c_convex"] and o["c_bb_corners_in"]:
+                    claims.append(("c-pass2-bb-corners", True))
+                if o["c_convex"]:
+                    claims.append(("c-pass2-vertices", o["c_vertices_in"]))
+                if o["c_have_obj_point"] and not o["c_obj_point_in"]:
+                    claims.append(("c-pass3-point-outside", False))
+                if o["c_have_obj_point"] and o["c_obj_point_in"] and o["c_ball_fits"]:
+                    claims.append(("c-pass3-ball-fits", True))
+                if o["c_have_reg_point"] and o["c_too_far"]:
+                    claims.append(("c-pass4-too-far", False))
+                claims.append(("c-pass5-difference", o["c_diff_empty"]))
+                for name, val in claims:
+                    c.count(n=1)
+                    c.hist("shortcut:" + name)
+                    if truth_val is not None and val != truth_val:
+                        c.violation("shortcut", f"shortcut {name} contradicts certified exact geometry",
+                                    dict(case=case, shortcut=name, says=val, truth=truth_val, oracles=o))
+            f = r.get("foot")
+            if f is not None:
+                mo = drv([f"FOOT {int(f['f_convex'])} {int(f['f_poly_in'])} {int(f['f_hull_in'])}"])[0]
+                c.hist("contain:footprint:" + ("convex" if f["f_convex"] else ("hull" if f["f_hull_in"] else "exact")))
+                if (mo == "1") != r["contains"]:
+                    c.violation("cascade", "footprint containsObject differs from the cascade model", dict(case=case, impl=r["contains"], model=mo, oracles=f))
+                if truth_val is not None and f["f_hull_in"] and not truth_val:
+                    c.violation("shortcut", "shortcut footprint-hull contradicts certified exact geometry", dict(case=case, oracles=f, truth=truth_val))
+        if drv.collecting:
+            phase["contain_impl_and_dry"] = round(time.time() - t0, 1)
+        if drv.collecting:
+            t0 = time.time()
+            drv.flush()
+            phase["model_driver"] = round(time.time() - t0, 1)
+            phase["model_commands"] = len(drv.out)
+    c = real_c
     c.cov["skipped_within_tolerance"] = skipped_close
     c.assumptions += [
         "ground truth certificates are computed by LP (scipy HiGHS) in floating point and ACCEPTED only if the extracted Coq checker validates them on the exact rational values of the mesh vertices",
